@@ -549,6 +549,56 @@ def w_qchemlog(m, lay, rng, variant):
     return "m.out", "\n".join(lines) + "\n", exp
 
 
+def w_wfx(m, lay, rng, variant):
+    """AIM extended wavefunction file (tagged sections, numbers in E21.14): s primitives on every atom, one p set on the first."""
+    n = m.natom
+    names = [f"{sy}{i + 1}" for i, sy in enumerate(m.sym)]
+    centers = list(range(1, n + 1)) + [1, 1, 1]
+    types = [1] * n + [2, 3, 4]
+    expo = [round(0.35 + 0.113 * i, 6) for i in range(n)] + [0.8125] * 3
+    nprim = len(centers)
+    nmo = min(n, 3)
+    nel = 2 * nmo
+
+    def sec(tag, body):
+        return [f"<{tag}>"] + list(body) + [f"</{tag}>"]
+
+    def fl(v):
+        return f"{v: .14E}"
+
+    def chunks(vals, per, fmt):
+        return [" ".join(fmt(v) for v in vals[c:c + per]) for c in range(0, len(vals), per)]
+
+    lines = sec("Title", [m.title]) + sec("Keywords", ["GTO"]) + sec("Number of Nuclei", [str(n)]) + sec("Number of Primitives", [str(nprim)])
+    lines += sec("Number of Occupied Molecular Orbitals", [str(nmo)]) + sec("Number of Perturbations", ["0"]) + sec("Nuclear Names", names)
+    lines += sec("Atomic Numbers", [str(z) for z in m.z]) + sec("Nuclear Charges", [fl(float(z)) for z in m.z])
+    lines += sec("Nuclear Cartesian Coordinates", [" ".join(fl(x) for x in r) for r in m.xyz])
+    lines += sec("Net Charge", [fl(float(sum(m.z) - nel))]) + sec("Number of Electrons", [str(nel)])
+    lines += sec("Number of Alpha Electrons", [str(nmo)]) + sec("Number of Beta Electrons", [str(nmo)]) + sec("Electronic Spin Multiplicity", ["1"])
+    lines += sec("Model", ["Restricted HF"]) + sec("Primitive Centers", chunks(centers, 10, str)) + sec("Primitive Types", chunks(types, 10, str))
+    lines += sec("Primitive Exponents", chunks(expo, 4, fl))
+    occs = [2.0] * nmo
+    ens = [round(-20.25 + 3.17 * j, 8) for j in range(nmo)]
+    lines += sec("Molecular Orbital Occupation Numbers", [fl(o) for o in occs]) + sec("Molecular Orbital Energies", [fl(e) for e in ens])
+    lines += sec("Molecular Orbital Spin Types", ["Alpha and Beta"] * nmo)
+    body = []
+    for j in range(nmo):
+        body += ["<MO Number>", str(j + 1), "</MO Number>"]
+        body += chunks([round((-1) ** (j + k) * (0.3 + 0.011 * k + 0.1 * j), 8) for k in range(nprim)], 4, fl)
+    lines += sec("Molecular Orbital Primitive Coefficients", body)
+    energy = round(-74.965901170787 - 0.01 * n, 12)
+    lines += sec("Energy = T + Vne + Vee + Vnn", [fl(energy)]) + sec("Virial Ratio (-V/T)", [fl(2.00599838291596)])
+    exp = {"atnums": m.z, "atcoords": m.xyz, "energy": energy, "title": m.title, "mo.occs": occs, "mo.energies": ens}
+    if variant in ("gradient", "gradient_permuted"):
+        grad = np.array([[round((-1) ** (i + k) * (1.1e-4 + 3.7e-6 * (3 * i + k)), 12) for k in range(3)] for i in range(n)])
+        order = list(range(n))
+        if variant == "gradient_permuted":
+            order = order[::-1] if n < 3 else order[1:] + order[:1]      # the section names its atoms: any order is valid
+        lines += sec("Nuclear Cartesian Energy Gradients", [f"{names[i]:<10s} " + " ".join(fl(x) for x in grad[i]) for i in order])
+        exp["atgradient"] = grad
+    return "m.wfx", "\n".join(lines) + "\n", exp
+
+
 def _fchk_array(lay, label, vals, real):
     rec = lay["fchk_rarray" if real else "fchk_iarray"]
     out = [render_record(rec, {"label": label, "count": len(vals)})]
@@ -628,13 +678,13 @@ def w_fchk(m, lay, rng, variant):
 WRITERS = {"xyz": w_xyz, "extxyz": w_extxyz, "sdf": w_sdf, "pdb": w_pdb, "gromacs": w_gro, "charmm": w_crd, "mol2": w_mol2,
            "poscar": w_poscar, "chgcar": w_chgcar, "locpot": w_locpot, "cube": w_cube, "fcidump": w_fcidump,
            "gaussianinput": w_gaussianinput, "json_qcschema": w_json, "fchk": w_fchk, "gaussianlog": w_gaussianlog,
-           "orcalog": w_orcalog, "gamess": w_gamess, "qchemlog": w_qchemlog}
+           "orcalog": w_orcalog, "gamess": w_gamess, "qchemlog": w_qchemlog, "wfx": w_wfx}
 VARIANTS = {"xyz": ["plain", "numbers"], "poscar": ["direct", "cartesian", "selective", "scaled"], "cube": ["five", "ragged", "six", "one"],
             "gromacs": ["rect", "triclinic"], "json_qcschema": ["plain", "massnumbers"], "gaussianlog": ["plain", "twoel"], "orcalog": ["plain", "opt"], "gamess": ["plain", "opt"],
-            "qchemlog": ["plain", "unrestricted", "freq"]}
+            "qchemlog": ["plain", "unrestricted", "freq"], "wfx": ["plain", "gradient", "gradient_permuted"]}
 # coordinate digits written per format and the magnitude classes its columns can hold
 DIGITS = {"xyz": 8, "extxyz": 8, "sdf": 4, "pdb": 3, "gromacs": 3, "charmm": 5, "mol2": 4, "poscar": 8, "chgcar": 8, "locpot": 8, "cube": 6,
-          "fcidump": 3, "gaussianinput": 8, "json_qcschema": 8, "fchk": 8, "gaussianlog": 6, "orcalog": 6, "gamess": 10, "qchemlog": 10}
+          "fcidump": 3, "gaussianinput": 8, "json_qcschema": 8, "fchk": 8, "gaussianlog": 6, "orcalog": 6, "gamess": 10, "qchemlog": 10, "wfx": 10}
 MAGS = {"sdf": ["small", "neg", "negwide", "negwider", "wide", "mixed"], "pdb": ["small", "neg", "negwide", "wide", "mixed"],
         "gromacs": ["small", "neg", "neghundred", "hundred", "mixed"], "charmm": ["small", "neg", "negwide", "negwider", "mixed"],
         "mol2": ["small", "negwide", "negwider", "mixed"], "cube": ["small", "neg", "negwide", "mixed"]}
@@ -643,5 +693,5 @@ SIZES = {"xyz": [1, 3, 10, 100, 1200], "extxyz": [1, 3, 10, 120], "sdf": [1, 2, 
          "mol2": [1, 2, 10, 100, 1000], "poscar": [1, 2, 5, 8, 30], "chgcar": [1, 2, 5, 8], "locpot": [1, 2, 5], "cube": [1, 2, 3, 7],
          "fcidump": [1, 2, 3, 4], "gaussianinput": [1, 3, 10, 60], "json_qcschema": [1, 3, 10, 100], "fchk": [1, 2, 3, 5, 6, 7, 11],
          "gaussianlog": [1, 2, 4, 5, 6, 7, 10, 11, 12, 16, 21], "orcalog": [1, 2, 3, 10, 100, 120], "gamess": [1, 2, 3, 4, 5, 6, 11, 34],
-         "qchemlog": [1, 2, 3, 4, 5, 7, 12, 30]}
-COORD_UNIT = {"gromacs": "nanometer", "cube": "au", "fchk": "au", "json_qcschema": "au", "orcalog": "au"}
+         "qchemlog": [1, 2, 3, 4, 5, 7, 12, 30], "wfx": [1, 2, 3, 4, 7, 12]}
+COORD_UNIT = {"gromacs": "nanometer", "cube": "au", "fchk": "au", "json_qcschema": "au", "orcalog": "au", "wfx": "au"}
